@@ -109,3 +109,24 @@ impl<'t> Worker<'t> {
         self.counter.as_ref().unwrap().compute_probs()
     }
 }
+
+#[cfg(vibrato_verif)]
+impl Worker<'_> {
+    /// Verification hook: dump of the lattice (see `Lattice::verif_dump`).
+    #[allow(clippy::type_complexity)]
+    pub fn verif_lattice_dump(&self) -> (Vec<Vec<[i64; 8]>>, Option<[i64; 8]>, usize) {
+        self.lattice.verif_dump()
+    }
+
+    /// Verification hook: `groupable` of every character of the current sentence.
+    pub fn verif_groupable(&self) -> Vec<usize> {
+        (0..self.sent.len_char())
+            .map(|i| self.sent.groupable(i))
+            .collect()
+    }
+
+    /// Verification hook: raw connection-id counts, if the counter is initialised.
+    pub fn verif_counts(&self) -> Option<(Vec<usize>, Vec<usize>)> {
+        self.counter.as_ref().map(|c| c.verif_counts())
+    }
+}
